@@ -38,6 +38,11 @@ const c25FindingODKU = "C25-keyless-odku-partial-index-writes"
 // artifacts panics when the transaction commits (the artifact map is keyed by the old primary key)
 const c25FindingPKArtifacts = "C25-pk-change-with-artifacts-panic"
 
+// keyless table whose merge base has another column count (a column was dropped/added since):
+// DELETE FROM dolt_conflicts_<t> panics (prollyConflictDeleter.putKeylessHash reads the row at
+// the wrong offsets)
+const c25FindingConfDelete = "C43-keyless-conflicts-delete-schema-change-panic"
+
 // a merge that rebuilds a UNIQUE index leaves out the rows whose key contains NULL
 const c25FindingUniqNull = "C25-merge-unique-rebuild-drops-null-keys"
 
@@ -88,6 +93,8 @@ type c25State struct {
 	mergeLike        bool
 	// finding C25-pk-change-with-artifacts-panic is listed open: no primary key change while artifacts exist
 	noPKChangeWithArtifacts bool
+	// finding C43-keyless-conflicts-delete-schema-change-panic is listed open
+	noKeylessConfDelete bool
 
 	lastRows [][]string
 	rawStmt  string // statement of the next "raw" step
@@ -306,6 +313,33 @@ func (c *c25State) changedSince(before [][]string) bool {
 	return !sxRowsEqual(sxSortRows(before), sxSortRows(c.fullScan("")))
 }
 
+// markResolved runs DELETE FROM dolt_conflicts_t (manual resolution keeping the current rows).
+// While finding C43-keyless-conflicts-delete-schema-change-panic is open, a keyless table whose
+// conflict table shows a different number of base_ and our_ columns is resolved with --ours
+// instead (same outcome: our rows are kept).
+func (c *c25State) markResolved() {
+	if c.noKeylessConfDelete && c.sch != nil && len(c.sch.PK) == 0 {
+		if r, err := c.query("SELECT * FROM dolt_conflicts_t LIMIT 0"); err == nil {
+			nb, no := 0, 0
+			for _, col := range r.Cols {
+				switch {
+				case strings.HasPrefix(col, "base_") && col != "base_cardinality":
+					nb++
+				case strings.HasPrefix(col, "our_") && col != "our_cardinality" && col != "our_diff_type":
+					no++
+				}
+			}
+			if nb != no {
+				c.excluded++
+				c.class("conflicts_delete_excluded_known")
+				_ = c.exec("CALL dolt_conflicts_resolve('--ours', 't')")
+				return
+			}
+		}
+	}
+	_ = c.exec("DELETE FROM dolt_conflicts_t")
+}
+
 func (c *c25State) hasUnique() bool {
 	for _, ix := range c.sch.Indexes {
 		if ix.Unique {
@@ -362,7 +396,7 @@ func (c *c25State) afterMergeLike(label string) {
 		case "theirs":
 			_ = c.exec("CALL dolt_conflicts_resolve('--theirs', 't')")
 		case "manual_keep":
-			_ = c.exec("DELETE FROM dolt_conflicts_t")
+			c.markResolved()
 		case "manual_take":
 			// take their value of one column where both sides still have the row, then mark resolved
 			if c.sch != nil && len(c.sch.PK) > 0 {
@@ -378,14 +412,14 @@ func (c *c25State) afterMergeLike(label string) {
 					_ = c.exec(fmt.Sprintf("UPDATE dolt_conflicts_t SET `our_%s` = `their_%s` WHERE `our_%s` IS NOT NULL AND `their_%s` IS NOT NULL", col, col, pk, pk))
 				}
 			}
-			_ = c.exec("DELETE FROM dolt_conflicts_t")
+			c.markResolved()
 		case "manual_delete":
 			// drop our version of every conflicting row, then mark resolved
 			if c.sch != nil && len(c.sch.PK) == 1 {
 				pk := c.sch.PK[0]
 				_ = c.exec(fmt.Sprintf("DELETE FROM t WHERE `%s` IN (SELECT `our_%s` FROM dolt_conflicts_t)", pk, pk))
 			}
-			_ = c.exec("DELETE FROM dolt_conflicts_t")
+			c.markResolved()
 		default:
 			if merging == "1" {
 				_ = c.exec("CALL dolt_merge('--abort')")
@@ -588,6 +622,23 @@ func (c *c25State) step(i int, pool []string, kind string) bool {
 		default: // rename
 			col := c.sch.Cols[rapid.IntRange(0, len(c.sch.Cols)-1).Draw(rt, lb+".ren")]
 			q = fmt.Sprintf("ALTER TABLE t RENAME COLUMN `%s` TO %s", col.Name, c.name("n"))
+		}
+		if c.noPKChangeWithArtifacts && len(c.sch.PK) > 0 {
+			touchesPK := false
+			for _, pk := range c.sch.PK {
+				if strings.Contains(q, "COLUMN `"+pk+"`") {
+					touchesPK = true
+				}
+			}
+			if touchesPK {
+				nv, _ := c.s.Scalar(rt, "SELECT COALESCE(SUM(num_violations),0) FROM dolt_constraint_violations")
+				nc, _ := c.s.Scalar(rt, "SELECT COALESCE(SUM(num_conflicts),0) FROM dolt_conflicts")
+				if nv != "0" || nc != "0" {
+					c.excluded++
+					c.class("pk_change_excluded_known")
+					return true
+				}
+			}
 		}
 		if err := c.exec(q); err == nil {
 			c.fDDL = true
@@ -1226,7 +1277,7 @@ func (c *c25State) finalSweep() {
 
 // ---------------------------------------------------------------------------------------
 
-func c25Case(rt *rapid.T, srv *vsql.Server, admin *vsql.Session, rec *vh.Recorder, shortText, skipPrefixMB, noKeylessODKU, tolerateUniqNull, noPKChangeWithArtifacts bool) {
+func c25Case(rt *rapid.T, srv *vsql.Server, admin *vsql.Session, rec *vh.Recorder, shortText, skipPrefixMB, noKeylessODKU, tolerateUniqNull, noPKChangeWithArtifacts, noKeylessConfDelete bool) {
 	db := srv.NewDBName()
 	admin.MustExec(rt, "CREATE DATABASE "+db)
 	defer admin.Exec("DROP DATABASE " + db)
@@ -1234,7 +1285,7 @@ func c25Case(rt *rapid.T, srv *vsql.Server, admin *vsql.Session, rec *vh.Recorde
 	s.MustExec(rt, "SET @@dolt_allow_commit_conflicts = 1")
 	s.MustExec(rt, "SET @@dolt_force_transaction_commit = 1")
 	c := &c25State{rt: rt, srv: srv, inproc: &sxInProc{srv: srv}, s: s, db: db, branches: []string{"main"}, cur: "main",
-		shortText: shortText, skipPrefixMB: skipPrefixMB, noKeylessODKU: noKeylessODKU, tolerateUniqNull: tolerateUniqNull, noPKChangeWithArtifacts: noPKChangeWithArtifacts, classes: map[string]bool{}, planCache: map[string]bool{}, validatedCommits: map[string]bool{}}
+		shortText: shortText, skipPrefixMB: skipPrefixMB, noKeylessODKU: noKeylessODKU, tolerateUniqNull: tolerateUniqNull, noPKChangeWithArtifacts: noPKChangeWithArtifacts, noKeylessConfDelete: noKeylessConfDelete, classes: map[string]bool{}, planCache: map[string]bool{}, validatedCommits: map[string]bool{}}
 	defer func() { c.s.Close() }()
 
 	// schema
@@ -1564,6 +1615,37 @@ func c25PinnedPKArtifacts(t *testing.T, srv *vsql.Server, admin *vsql.Session) s
 	return ""
 }
 
+// c25PinnedConfDelete is the reproduction of finding C43-keyless-conflicts-delete-schema-change-panic.
+func c25PinnedConfDelete(t *testing.T, srv *vsql.Server, admin *vsql.Session) string {
+	db := srv.NewDBName()
+	admin.MustExec(t, "CREATE DATABASE "+db)
+	defer admin.Exec("DROP DATABASE " + db)
+	s := srv.Session(t, "pin", db)
+	defer func() { s.Close() }()
+	for _, q := range []string{
+		"SET @@dolt_allow_commit_conflicts = 1",
+		"CREATE TABLE t (a INT, b VARCHAR(16), d BIGINT)",
+		"INSERT INTO t VALUES (NULL,'A',NULL)",
+		"CALL dolt_commit('-Am','init')",
+		"ALTER TABLE t DROP COLUMN a",
+		"CALL dolt_commit('-Am','m2')",
+		"CALL dolt_checkout('-b','b3')",
+		"INSERT INTO t VALUES ('x',1)",
+		"CALL dolt_commit('-Am','m5')",
+		"CALL dolt_checkout('main')",
+		"INSERT INTO t VALUES ('y',2)",
+		"CALL dolt_commit('-Am','m6')",
+		"CALL dolt_cherry_pick('b3~1')",
+	} {
+		s.MustExec(t, q)
+	}
+	err := s.Exec("DELETE FROM dolt_conflicts_t")
+	if err != nil && vsql.ErrCode(err) == 0 {
+		return fmt.Sprintf("keyless table, cherry-pick of the commit that dropped column a (its parent still has 3 columns): DELETE FROM dolt_conflicts_t drops the client connection (%v); server log: impossible conversion in prollyConflictDeleter.putKeylessHash", err)
+	}
+	return ""
+}
+
 // c25PinnedUniqNull is the reproduction of finding C25-merge-unique-rebuild-drops-null-keys.
 func c25PinnedUniqNull(t *testing.T, srv *vsql.Server, admin *vsql.Session) string {
 	db := srv.NewDBName()
@@ -1630,7 +1712,8 @@ func TestVerif_C25(t *testing.T) {
 		"while finding "+c25FindingODKU+" is listed open, keyless tables with a unique index get no INSERT … ON DUPLICATE KEY UPDATE and no REPLACE (plain INSERT instead; counted as excluded_known)",
 		"a connection dropped by the server during a program statement fails the case (it means a panic in the statement handler)",
 		"while finding "+c25FindingUniqNull+" is listed open, after a merge/cherry-pick/revert/stash-pop statement a UNIQUE index may miss entries whose indexed columns contain NULL (and only those; nothing extra): such mismatches are skipped and counted as excluded_known",
-		"while finding "+c25FindingPKArtifacts+" is listed open, DROP/ADD PRIMARY KEY is not issued while the table has conflict or constraint-violation artifacts (counted as excluded_known)",
+		"while finding "+c25FindingPKArtifacts+" is listed open, DROP/ADD PRIMARY KEY and MODIFY/RENAME of a primary-key column are not issued while the table has conflict or constraint-violation artifacts (counted as excluded_known)",
+		"while finding "+c25FindingConfDelete+" is listed open, conflicts of a keyless table whose conflict table shows different numbers of base_ and our_ columns are marked resolved with --ours instead of DELETE FROM dolt_conflicts_t (counted as excluded_known)",
 		"while finding "+c25FindingPrefix+" is listed open, point lookups constraining a non-binary-collated column that is a prefix-length part of some index are skipped when the probe or the column holds multi-byte characters (counted as excluded_known); full-range index scans and the stored-map comparison stay active")
 	defer rec.Write(t)
 	srv, stop := sxStart(t, "c25")
@@ -1691,5 +1774,16 @@ func TestVerif_C25(t *testing.T) {
 			t.Errorf("%s", msg)
 		}
 	})
-	vh.Check(t, "programs", 110, 350, func(rt *rapid.T) { c25Case(rt, srv, admin, rec, open, openPfx, openODKU, openUN, openPKA) })
+	openCD := vh.OpenFinding("C43", c25FindingConfDelete)
+	t.Run("pinned_keyless_conflicts_delete", func(t *testing.T) {
+		if msg := c25PinnedConfDelete(t, srv, admin); msg != "" {
+			if openCD {
+				vh.ReportKnown("C43", c25FindingConfDelete, msg)
+				return
+			}
+			vh.NoteViolation(t.Name(), "", `{"sql":"see c25PinnedConfDelete","observed":"`+strings.ReplaceAll(msg, `"`, `'`)+`"}`)
+			t.Errorf("%s", msg)
+		}
+	})
+	vh.Check(t, "programs", 110, 350, func(rt *rapid.T) { c25Case(rt, srv, admin, rec, open, openPfx, openODKU, openUN, openPKA, openCD) })
 }
